@@ -6,6 +6,8 @@ CONSTANTS
   Tags = {0, 1}
   Es = 8
   MaxPa = 4
+  TK = 0
+  TRem = {}
   OpNames = {"t_insert_unique", "t_remove", "t_entry_or_insert", "t_entry_insert", "t_entry_drop", "t_shrink_to_fit", "reserve"}
 INVARIANTS Inv Refines ChkOK LookupInv IterHashInv
 CHECK_DEADLOCK FALSE
